@@ -401,6 +401,13 @@ def replay_interleaving(inputs):
             return (self.v * 1000 + k) * scale
 
         @weak_lru_cache()
+        def f2(self, a=0, b=0):
+            return (self.v, 'a', a, 'b', b)
+
+        def g2(self, a=0, b=0):
+            return (self.v, 'a', a, 'b', b)
+
+        @weak_lru_cache()
         def h(self, k=0):
             if k >= 0:
                 raise ValueError(f'cannot analyse {self.v}')
@@ -414,6 +421,10 @@ def replay_interleaving(inputs):
         elif op == 'query':
             b = live[int(rng.integers(len(live)))]
             k, sc = int(rng.integers(0, 3)), int(rng.integers(1, 3))
+            # optional parameters given by keyword in any subset and order
+            if b.f2(b=k) != b.g2(b=k) or b.f2(a=k) != b.g2(a=k) or b.f2(k, b=sc) != b.g2(k, b=sc) or b.f2(b=sc, a=k) != b.g2(b=sc, a=k) or b.f2() != b.g2():
+                bad.append(f'step {step}: cached value differs from recomputation for keyword arguments')
+                break
             if b.f(k, scale=sc) != b.g(k, scale=sc) or b.f(k) != b.g(k):
                 bad.append(f'step {step}: cached value differs from recomputation')
                 break
@@ -478,6 +489,19 @@ def replay_interleaving(inputs):
                 continue  # e.g. known finding C19-empty-part in Jumps.rates
             if not _same(c_val, u_val) or not _same(c_val, c_again):
                 bad.append(f'{type(o).__name__}.{name}: cached value differs from an uncached recomputation on the same object')
+    # cached methods with optional arguments on real objects, arguments by keyword in every subset
+    import networkx as _nx
+    for kw_ in ({'max_e_act': 0.3}, {'min_e_act': 0.05}, {'min_e_act': 0.05, 'max_e_act': 0.3}, {}):
+        try:
+            g_c, g_u = jumps.to_graph(**kw_), type(jumps).to_graph.__wrapped__(jumps, **kw_)
+            if sorted(map(repr, g_c.edges(data=True))) != sorted(map(repr, g_u.edges(data=True))):
+                bad.append(f'Jumps.to_graph({kw_}): cached graph differs from the uncached one')
+        except (ValueError, _nx.NetworkXError):
+            pass
+    for kw_ in ({'dimensions': 2}, {'dimensions': 1}):
+        m_ = tr.trajectory.metrics()
+        if abs(float(m_.tracer_diffusivity(**kw_)) - float(type(m_).tracer_diffusivity.__wrapped__(m_, **kw_))) > 0:
+            bad.append(f'tracer_diffusivity({kw_}): cached != uncached')
     tr2, jumps2 = _mk_jumps(inputs['seed'] + 1)
     if jumps.n_jumps != jumps2.n_jumps and np.array_equal(jumps.matrix(), jumps2.matrix()) and not np.array_equal(type(jumps).matrix.__wrapped__(jumps2), jumps.matrix()):
         bad.append('a result of one Jumps object was served for another')
